@@ -29,8 +29,26 @@ def main():
         return 3
     try:
         return mod.run(a.tier, seed)
-    except Exception:
+    except Exception as e:
         traceback.print_exc()
+        repo = os.path.realpath(os.environ.get('VERIF_REPO', '/repo'))
+        frames = traceback.extract_tb(e.__traceback__)
+        inlib = [f for f in frames if os.path.realpath(f.filename).startswith(repo + os.sep)]
+        if inlib and os.path.realpath(frames[-1].filename).startswith(repo + os.sep):
+            # the library itself raised while the check was driving its public API in a way that works on the
+            # tree the check was written against: reported as a violation with the traceback as the witness
+            rdir = os.path.join(VERIF, 'replay', a.prop)
+            os.makedirs(rdir, exist_ok=True)
+            path = os.path.join(rdir, '000.json')
+            with open(path, 'w') as fh:
+                json.dump({'property': a.prop, 'obligation': '%s.driver.library-call-raised' % a.prop, 'kind': 'noraise',
+                           'source': 'bounded', 'witness': {'call site in the check': '%s:%d' % (
+                               [f for f in frames if not os.path.realpath(f.filename).startswith(repo + os.sep)][-1].filename,
+                               [f for f in frames if not os.path.realpath(f.filename).startswith(repo + os.sep)][-1].lineno)},
+                           'detail': ''.join(traceback.format_exception(type(e), e, e.__traceback__))[-3000:],
+                           'native_replay': {'outcome': 'confirmed', 'note': 'concrete run of the real code'}}, fh, indent=1)
+            print('VIOLATION property=%s replay=%s obligation=%s.driver.library-call-raised' % (a.prop, path, a.prop))
+            return 1
         print('CHECKER-ERROR uncaught exception in %s' % a.prop)
         return 3
 
